@@ -175,6 +175,9 @@ def run_entry_pair(spec):
         cset, sset = c.validate(), s.validate()
     except ValueError as e:
         return {"outcome": "invalid", "why": str(e)[:120]}
+    from .c19_use import Watch
+    watch = Watch({"client": c, "client.validated": cset, "server": s, "server.validated": sset})
+    ref = {"cset": sdict(cset), "sset": sdict(sset)}
     L = lab.Lab()
     if spec["entry"] == "srp":
         skw = {"verifierDB": verifier_db(spec["srp_bits"])}
@@ -190,7 +193,7 @@ def run_entry_pair(spec):
     else:
         raise KeyError(spec["entry"])
     L.run()
-    res = {"cset": sdict(cset), "sset": sdict(sset), "client": L.client.state, "server": L.server.state,
+    res = {"cset": ref["cset"], "sset": ref["sset"], "client": L.client.state, "server": L.server.state,
            "client_exc": lab.exc_class(L.client.exc), "server_exc": lab.exc_class(L.server.exc)}
     if L.client.state == "done" and L.server.state == "done":
         res["outcome"] = "complete" if P._exchange(L) else "complete-but-no-data"
@@ -199,6 +202,7 @@ def run_entry_pair(spec):
         res["dhGroupSize"] = L.client.conn.dhGroupSize
     else:
         res["outcome"] = "fail"
+    res["settings_mutated"] = watch.changed()
     return res
 
 
@@ -397,6 +401,9 @@ def run_multipsk_pair(spec):
         cset, sset = c.validate(), s.validate()
     except ValueError as e:
         return {"outcome": "invalid", "why": str(e)[:120]}
+    from .c19_use import Watch
+    watch = Watch({"client": c, "client.validated": cset, "server": s, "server.validated": sset})
+    ref = {"cset": P.settings_dict(cset), "sset": P.settings_dict(sset)}
     L = lab.Lab()
     log = []
     skw = {}
@@ -422,7 +429,7 @@ def run_multipsk_pair(spec):
         return [msg]
     lab.hook_messages(L.server.conn, fn)
     L.run()
-    res = {"cset": P.settings_dict(cset), "sset": P.settings_dict(sset), "client": L.client.state, "server": L.server.state,
+    res = {"cset": ref["cset"], "sset": ref["sset"], "client": L.client.state, "server": L.server.state,
            "client_exc": lab.exc_class(L.client.exc), "server_exc": lab.exc_class(L.server.exc),
            "hrr": any(n == "HelloRetryRequest" for n, _ in log),
            "server_sent_certificate": any(n == "Certificate" for n, _ in log)}
@@ -433,6 +440,7 @@ def run_multipsk_pair(spec):
         res["suite"] = L.client.conn.session.cipherSuite
     else:
         res["outcome"] = "fail"
+    res["settings_mutated"] = watch.changed()
     return res
 
 
